@@ -80,7 +80,7 @@ def _aux_files(scr, tmp):
 _aux_files.key = None
 
 
-def real_round(fx, observed, batch, nchunks, level_of, order, allowed, tmp, rnd, cli=False, cli_scores=False):
+def real_round(fx, observed, batch, nchunks, level_of, order, allowed, tmp, rnd, cli=False, cli_scores=False, procs=False):
     scr = fx.screen(set(observed))
     LEVEL.clear()
     LEVEL.update(rnd.choice(LEVELS))
@@ -98,10 +98,21 @@ def real_round(fx, observed, batch, nchunks, level_of, order, allowed, tmp, rnd,
             old = sys.argv
             sys.argv = ["x", "--data", sfn, "--thetas", tfn, "--distance-matrix", dfn, "--n-chunks", str(nchunks), "--chunk-index", str(i), "--scorer", "SizeScorer",
                         "--output", fn] + (["--batch-plate-ids"] + [str(b) for b in sorted(batch)] if batch else [])
-            try:
-                st, r = outcome(cs_mod.main)
-            finally:
+            if procs:
+                # every chunk in an interpreter of its own, as the workflow runs them (each with its own string-hash seed)
+                import subprocess
+                argv = list(sys.argv)
                 sys.argv = old
+                env = dict(os.environ, PYTHONHASHSEED=str(11 + 7 * i))
+                p_ = subprocess.run([sys.executable, "-c", "import sys, logging; logging.disable(logging.CRITICAL); sys.argv = %r; "
+                                     "from batchie.cli import calculate_scores as m; m.main()" % ([str(x) for x in argv],)],
+                                    env=env, stdout=subprocess.PIPE, stderr=subprocess.PIPE, text=True, timeout=300)
+                st, r = ("ok", None) if p_.returncode == 0 else ("raised", p_.stderr[-300:])
+            else:
+                try:
+                    st, r = outcome(cs_mod.main)
+                finally:
+                    sys.argv = old
             if st != "ok":
                 return {"raised": "calculate_scores CLI (chunk %d of %d): %s" % (i, nchunks, r)}
             hh = ChunkedScoresHolder.load_h5(fn)
@@ -209,6 +220,13 @@ def run(ctx):
                 mode = rnd.random()
                 allowed = None if mode < 0.4 else sorted(rnd.sample(cand, rnd.randint(0, len(cand))))
                 traces.append(real_round(fx, observed, batch, n, level_of, order, allowed, tmp, rnd, cli=(mode < 0.12), cli_scores=(0.12 <= mode < 0.3)))
+            # the chunks of one round computed by separate interpreter processes
+            for n in ((2,) if ctx.quick else (2, 3, 4, 2, 3)):
+                observed = {p for p in range(npl) if rnd.random() < 0.2}
+                cand = [p for p in range(npl) if p not in observed]
+                order = list(range(n))
+                rnd.shuffle(order)
+                traces.append(real_round(fx, observed, set(), n, {p: 1 for p in range(npl)}, order, None, tmp, rnd, cli_scores=True, procs=True))
             ok = []
             for t in traces:
                 if "raised" in t:
